@@ -1,4 +1,5 @@
 HOOK_COMMITS = ["1ae5c62"]
+FIX_COMMITS = ["42a7f6e", "a52dade"]
 
 ENGINES = [
     {"name": "stack", "path": "harness/internal/stack", "serves_properties": ["C01", "C02"], "kind_free_text": "in-process server: real disk cache + HTTP handler on loopback TCP behind a ServeMux + gRPC over bufconn with panic-recording interceptors"},
@@ -9,7 +10,11 @@ ENGINES = [
 _PBT = "property-based testing (pgregory.net/rapid): "
 
 CLAIMS = {
-    "C02": dict(
+    "C01": dict(
+        technique=_PBT + "differential against the harness's own SHA-256/length of the bytes it sent, over generated blob x corruption x 10 write paths x storage mode x zstd codec; compressed payloads judged by two independent decoders",
+        text="Generated-input search through the full in-process stack: every case uploads one blob (pristine or with one corruption of data, size, hash, compression or framing) through one of the ten CAS write paths; acknowledged => logical bytes match the declared digest and the blob is then reported present and read back identically; pristine => acknowledged; anything else => error status and the claimed digest absent. Some cases start with the pristine blob already stored so that wrong-size re-uploads meet an existing entry.",
+        note="Fresh cache per case; uploads that name an already-present digest (incl. the always-present empty blob) are outside the MUST classes because C16 allows the early return. Blobs up to ~3 MiB. FetchBlob upstream is a harness HTTP server on loopback.",
+    ),    "C02": dict(
         technique=_PBT + "round-trip oracle against the original bytes over generated blob x writer/reader configuration x read path x offset x limit; zstd responses decoded by two independent decoders",
         text="Generated-input search: every case writes a blob under one (storage mode, zstd codec), re-opens the directory under another and reads it back through HTTP GET/HEAD (identity and zstd), BatchReadBlobs, ByteStream.Read (blobs/ and compressed-blobs/zstd/ at chunk-edge offsets and limits), GetTree, ActionResult inlining and the disk layer with size known/unknown; delivered bytes must equal the original range. Holds on everything explored; not a proof of absence.",
         note="Trusts SHA-256, klauspost/compress and libzstd as independent decoders; write path is the disk layer's Put (write paths are C01's domain); blobs up to ~3 MiB (4 chunks).",
@@ -17,4 +22,4 @@ CLAIMS = {
 }
 
 _TODO = "check not built yet in this session (claimed once its check exists); technique applies"
-NOT_APPLICABLE = {p: _TODO for p in ["C01", "C03", "C04", "C05", "C06", "C07", "C08", "C09", "C10", "C11", "C12", "C13", "C14", "C15", "C16", "C17", "C18", "C19", "C20"]}
+NOT_APPLICABLE = {p: _TODO for p in ["C03", "C04", "C05", "C06", "C07", "C08", "C09", "C10", "C11", "C12", "C13", "C14", "C15", "C16", "C17", "C18", "C19", "C20"]}
